@@ -216,6 +216,56 @@ Lemma lts_state : forall threads sched,
   snd (lts_run vh R threads sched) = arun vh R (lts_trace (map (flat_map (acts_of R)) threads) sched).
 Proof. intros threads sched. unfold lts_run, lts_init, arun. apply lts_fold_trace. Qed.
 
+(* ---- lookups interleaved with the membership actions -------------------------------------------- *)
+(* the answers of the lookups are the answers of Get in the membership states at their own steps *)
+Lemma grun_answers : forall l done,
+  snd (grun vh R (arun vh R done) l) =
+  map (fun pq => get (arun vh R (fst pq)) (fst (snd pq)) (snd (snd pq))) (gpoints l done).
+Proof.
+  induction l as [|c l IH]; intros done; [reflexivity|]. destruct c as [a|hp ihp]; cbn [grun gpoints snd map fst].
+  - replace (astep vh R (arun vh R done) a) with (arun vh R (done ++ [a])); [apply IH|].
+    unfold arun. rewrite fold_left_app. reflexivity.
+  - f_equal. apply IH.
+Qed.
+
+(* ... and each such state is one the execution really goes through: a prefix of its membership trace *)
+Lemma gpoints_prefix : forall l done pq, In pq (gpoints l done) ->
+  exists mid rest, fst pq = done ++ mid /\ membership l = mid ++ rest.
+Proof.
+  induction l as [|c l IH]; intros done pq Hin; [contradiction|]. destruct c as [a|hp ihp]; cbn [gpoints] in Hin.
+  - change (membership (CAct a :: l)) with (a :: membership l).
+    destruct (IH _ _ Hin) as (mid & rest & E1 & E2). exists (a :: mid), rest. split.
+    + rewrite E1, <- app_assoc. reflexivity.
+    + cbn [app]. rewrite E2. reflexivity.
+  - change (membership (CGet hp ihp :: l)) with (membership l).
+    destruct Hin as [<-|Hin].
+    + exists [], (membership l). cbn [fst]. split; [rewrite app_nil_r; reflexivity | reflexivity].
+    + destruct (IH _ _ Hin) as (mid & rest & E1 & E2). exists mid, rest. auto.
+Qed.
+
+(* Get is linearisable against the membership actions: every answer of every lookup of every
+   interleaving is Get's answer in a membership state the execution goes through (the state at the
+   lookup's own step, inside the call) — hence never a panic, never a value outside the ring of that
+   moment: its node is in the node set, it sits in a bucket of an existing key, and it owns the cyclic
+   successor slot among the layers present then. *)
+Lemma get_linearizable_l : forall l g, In g (snd (grun vh R init l)) ->
+  exists acts rest hp ihp,
+    membership l = acts ++ rest /\ g = get (arun vh R acts) hp ihp /\ g <> GPanic /\
+    (g = GNone <-> ring (arun vh R acts) = []) /\
+    forall x, g = GSome x ->
+      In (nrepr x) (nodes (arun vh R acts)) /\
+      (exists h, In h (keys (arun vh R acts)) /\ In x (bucket h (ring (arun vh R acts)))) /\
+      exists k, LiveL (amap_acts acts) x k /\ is_succ (live_hashL (amap_acts acts)) hp k.
+Proof.
+  intros l g Hin. change init with (arun vh R []) in Hin. rewrite grun_answers in Hin.
+  apply in_map_iff in Hin. destruct Hin as [[acts [hp ihp]] [Eg Hpq]]. cbn [fst snd] in Eg.
+  destruct (gpoints_prefix _ _ _ Hpq) as (mid & rest & E1 & E2). cbn [fst app] in E1. subst acts.
+  exists mid, rest, hp, ihp. split; [exact E2|]. split; [symmetry; exact Eg|].
+  destruct (arun_get mid hp ihp) as (NP & NoneIff & Hs). destruct (arun_get_owner_l mid hp ihp) as (Ho & _).
+  rewrite <- Eg. split; [exact NP|]. split; [exact NoneIff|].
+  intros x Gx. destruct (Hs x Gx) as [Hn Hb]. split; [exact Hn|]. split; [exact Hb | exact (Ho x Gx)].
+Qed.
+
 Lemma lts_inv_get_l : forall threads sched hp ihp,
   let s := snd (lts_run vh R threads sched) in
   Inv vh R s /\
